@@ -100,10 +100,17 @@ fn rep_hi(t: &TyOps) -> i128 { (1i128 << (t.rep_bits - 1)) - 1 }
 fn show(r: Option<i128>) -> String { match r { Some(x) => x.to_string(), None => "panic".into() } }
 fn ord_str(o: Ordering) -> &'static str { match o { Ordering::Less => "lt", Ordering::Equal => "eq", Ordering::Greater => "gt" } }
 
+/// built inside /verif/harness_nostd (dasp_sample without its `std` feature)?
+const NOSTD: bool = cfg!(feature = "nostd");
+
 fn main() {
     let a = Args::parse();
+    if a.stream.ends_with("_nostd") != NOSTD {
+        if NOSTD { eprintln!("stream {} needs the std build", a.stream); std::process::exit(2); }
+        delegate_nostd("c15_nostd");
+    }
     match a.stream.as_str() {
-        "ty" => run(&a),
+        "ty" | "ty_nostd" => run(&a),
         s => { eprintln!("unknown stream {}", s); std::process::exit(2); }
     }
 }
@@ -201,7 +208,7 @@ impl<'a> Ctx<'a> {
 }
 
 fn run(a: &Args) {
-    let mut st = Stream::new(&a.out, "ty");
+    let mut st = Stream::new(&a.out, if NOSTD { "ty_nostd" } else { "ty" });
     let mut rng = Rng::new(a.seed, "ty");
     let dbg = cfg!(debug_assertions);
     let mode = if dbg { "dbg" } else { "rel" };
